@@ -4,6 +4,7 @@ import GenlmModel.Model.Shape
 import GenlmModel.Model.Norm
 import GenlmModel.Model.Mask
 import GenlmModel.Model.WfsaOps
+import GenlmModel.Model.Cert
 /-! Operation dispatch of the driver: one JSON object in, one JSON object out. -/
 namespace Genlm
 open Lean (Json)
@@ -107,6 +108,56 @@ def opWfsaOp (j : Json) : E Json := do
       let B : WFSA Sx Sx K ← wfsaOfJson (← getField j "b")
       pure (wfsaToJson ((A.concat B).mapStates sumTag))
   | _ => throw s!"unknown wfsa op {name}"
+
+def vecOfJson (j : Json) : E (List K) := do (← getArr j).mapM Wt.ofJson
+def matOfJson (j : Json) : E (List (List K)) := do (← getArr j).mapM (vecOfJson (K := K))
+
+/-- maut = {"dim":d,"start":[…],"arcs":[[sym,[[…]…]]…],"stop":[…]} -/
+def mautOfJson (j : Json) : E (MAut Sx K) := do
+  let dim ← getNat (← getField j "dim")
+  let start ← vecOfJson (K := K) (← getField j "start")
+  let stop ← vecOfJson (K := K) (← getField j "stop")
+  let arcs ← (← getArr (← getField j "arcs")).mapM fun e => do
+    match ← getArr e with
+    | [a, m] => pure ((← sxOfJson a), (← matOfJson (K := K) m))
+    | _ => throw "bad maut arc"
+  pure ⟨dim, start, arcs, stop⟩
+
+variable [DecidableEq K] [Neg K] in
+/-- {"op":"cert","a":maut,"b":maut,"cert":{"U":…,"cStop":…,"cArc":[[sym,[[…]]]…]} | "word":[…] , "rank":{"us","vs","inv"}}
+→ verdicts of the verified checkers -/
+def opCert (j : Json) : E Json := do
+  let A : MAut Sx K ← mautOfJson (← getField j "a")
+  let mut out : List (String × Json) := [("a_wf", .bool A.wf)]
+  match j.getObjVal? "b" with
+  | .ok jb =>
+    let B : MAut Sx K ← mautOfJson jb
+    out := out ++ [("b_wf", .bool B.wf)]
+    match j.getObjVal? "cert" with
+    | .ok jc =>
+      let U ← matOfJson (K := K) (← getField jc "U")
+      let cStop ← vecOfJson (K := K) (← getField jc "cStop")
+      let cArc ← (← getArr (← getField jc "cArc")).mapM fun e => do
+        match ← getArr e with
+        | [a, m] => pure ((← sxOfJson a), (← matOfJson (K := K) m))
+        | _ => throw "bad cArc"
+      out := out ++ [("equiv_cert_ok", .bool (equivCertCheck A B ⟨U, cStop, cArc⟩))]
+    | _ => pure ()
+    match j.getObjVal? "words" with
+    | .ok jw =>
+      let ws ← (← getArr jw).mapM sxList
+      out := out ++ [("wa", .arr (ws.map fun w => Wt.toJson (A.weight w)).toArray),
+                     ("wb", .arr (ws.map fun w => Wt.toJson (B.weight w)).toArray)]
+    | _ => pure ()
+  | _ => pure ()
+  match j.getObjVal? "rank" with
+  | .ok jr =>
+    let us ← (← getArr (← getField jr "us")).mapM sxList
+    let vs ← (← getArr (← getField jr "vs")).mapM sxList
+    let inv ← matOfJson (K := K) (← getField jr "inv")
+    out := out ++ [("rank_lower_ok", .bool (rankLowerCheck A us vs inv)), ("rank_lower", .num ⟨us.length, 0⟩)]
+  | _ => pure ()
+  pure (Json.mkObj out)
 
 def opZn (j : Json) : E Json := do
   let G : CFG Sx K ← cfgOfJson (← getField j "cfg")
@@ -230,7 +281,9 @@ def runOp (j : Json) : E Json := do
   let op ← getStr (← getField j "op")
   let R ← match j.getObjVal? "R" with | .ok (.str r) => pure r | _ => pure "Float"
   match R with
-  | "Float" | "Real" => runOpK (K := Rat) op j
+  | "Float" | "Real" => (match op with
+      | "cert" => opCert (K := Rat) j
+      | _ => runOpK (K := Rat) op j)
   | "F64" => (match op with
       | "wn" => opWn (K := Float) j
       | "zn" => opZn (K := Float) j
